@@ -11,6 +11,7 @@ pub mod c11;
 pub mod c12;
 pub mod c15;
 pub mod c16;
+pub mod c19;
 
 pub fn run(ctx: &Ctx) -> i32 {
     match ctx.prop {
@@ -21,6 +22,7 @@ pub fn run(ctx: &Ctx) -> i32 {
         "C12" => c12::run(ctx),
         "C15" => c15::run(ctx),
         "C16" => c16::run(ctx),
+        "C19" => c19::run(ctx),
         _ => {
             println!("MACHINERY-ERROR: unknown property {}", ctx.prop);
             2
@@ -37,6 +39,7 @@ pub fn replay(prop: &'static str, path: &str) -> i32 {
         "C12" => Box::new(c12::replay),
         "C15" => Box::new(c15::replay),
         "C16" => Box::new(c16::replay),
+        "C19" => Box::new(c19::replay),
         _ => {
             println!("MACHINERY-ERROR: unknown property {}", prop);
             return 2;
